@@ -38,7 +38,7 @@ const (
 	subsidy     = 50e8
 	bannerText  = "THIS SHOULD NOT HAPPEN"
 	bannerEnd   = "END OF REPORT"
-	scriptWdog  = 25 * time.Second // generous per-script watchdog (scripts take milliseconds)
+	scriptWdog  = 25 * time.Second // generous per-script / per-call watchdog (scripts take milliseconds)
 	lockRetries = 60               // x 2 ms: a leaked lock never becomes free, a busy one does
 )
 
@@ -61,7 +61,6 @@ type harness struct {
 	nextExtra uint32
 	mempool   []*hTx // transactions accepted into the node's mempool (by the self-test)
 	lastMemTx *hTx   // tail of the chain of mempool txs; output 0 is spendable
-	spendCB   int    // next coinbase height to spend
 
 	consumerBusy atomic.Int32
 	consumerErr  []string
@@ -214,7 +213,6 @@ func newHarness(logPath string, synchronized bool) *harness {
 	h.bystander = by
 
 	h.nextIP = 0x2e000100
-	h.spendCB = 1
 	h.logOff = h.logSize()
 	return h
 }
@@ -317,24 +315,27 @@ func (h *harness) newTipBlock(txs []*hTx) *hBlock {
 	return h.makeBlock(h.tip(), chainLen+1, h.tipTime+1+h.nextExtra%5000, txs)
 }
 
-// spendTx returns a valid transaction: spends a matured coinbase (while there are some) or the
-// tail of the chain of mempool transactions built so far.
-func (h *harness) spendTx(fee uint64, advance bool) *hTx {
+// spendTx returns a valid transaction. reserved > 0: spends the coinbase of that height (heights 1
+// and 2 are reserved for the two self-tests, so that no script can have spent them before);
+// otherwise a matured coinbase from height 3 on, or the tail of the chain of mempool transactions.
+func (h *harness) spendTx(fee uint64, reserved int) *hTx {
 	var t *hTx
-	if h.lastMemTx == nil || (h.spendCB < chainLen-101 && h.nextExtra%3 == 0) {
-		cb := h.blocks[h.spendCB-1].Txs[0]
+	h.nextExtra++
+	tag := []byte{0x6a, 0x04, byte(h.nextExtra), byte(h.nextExtra >> 8), byte(h.nextExtra >> 16), byte(h.nextExtra >> 24)}
+	switch {
+	case reserved > 0:
+		cb := h.blocks[reserved-1].Txs[0]
 		t = &hTx{Version: 2, In: []hTxIn{{Prev: cb.txid(), Vout: 0, Sequence: 0xfffffffd}},
-			Out: []hTxOut{{Value: subsidy - fee, Script: opTrue}, {Value: 0, Script: []byte{0x6a, 0x01, byte(h.nextExtra)}}}}
-		t.Out[0].Value = subsidy - fee
-		if advance {
-			h.spendCB++
-		}
-	} else {
+			Out: []hTxOut{{Value: subsidy - fee, Script: opTrue}, {Value: 0, Script: tag}}}
+	case h.lastMemTx == nil || h.nextExtra%3 == 0:
+		cb := h.blocks[2+int(h.nextExtra)%(chainLen-101-3)].Txs[0]
+		t = &hTx{Version: 2, In: []hTxIn{{Prev: cb.txid(), Vout: 0, Sequence: 0xfffffffd}},
+			Out: []hTxOut{{Value: subsidy - fee, Script: opTrue}, {Value: 0, Script: tag}}}
+	default:
 		p := h.lastMemTx
 		t = &hTx{Version: 2, In: []hTxIn{{Prev: p.txid(), Vout: 0, Sequence: 0xfffffffd}},
-			Out: []hTxOut{{Value: p.Out[0].Value - fee, Script: opTrue}, {Value: 0, Script: []byte{0x6a, 0x01, byte(h.nextExtra)}}}}
+			Out: []hTxOut{{Value: p.Out[0].Value - fee, Script: opTrue}, {Value: 0, Script: tag}}}
 	}
-	h.nextExtra++
 	return t
 }
 
@@ -652,6 +653,18 @@ func (h *harness) quiesce() {
 	}
 }
 
+// wdog is the per-script watchdog; confirmation runs of a suspected hang get more (C18_WDOG seconds).
+func wdog() time.Duration {
+	if v := os.Getenv("C18_WDOG"); v != "" {
+		var n int
+		fmt.Sscan(v, &n)
+		if n > 0 {
+			return time.Duration(n) * time.Second
+		}
+	}
+	return scriptWdog
+}
+
 func allStacks() string {
 	buf := make([]byte, 1<<20)
 	return string(buf[:runtime.Stack(buf, true)])
@@ -705,7 +718,7 @@ func (h *harness) runScript(s *script) *scriptResult {
 	}()
 	select {
 	case <-done:
-	case <-time.After(scriptWdog):
+	case <-time.After(wdog()):
 		res.Hang = true
 		res.HangStack = allStacks()
 		return res
